@@ -718,6 +718,15 @@ func (in *Interp) newCell(act *activation, v ssa.Value, name string, pos token.P
 	}
 	in.nextCell++
 	c := &Cell{ID: in.nextCell, Name: name, Site: pos, Tag: "c:" + act.fn.Name() + "." + v.Name()}
+	if al, ok := v.(*ssa.Alloc); ok {
+		if pt, ok := al.Type().Underlying().(*types.Pointer); ok {
+			if n, ok := pt.Elem().(*types.Named); ok && n.Obj().Pkg() != nil && strings.HasPrefix(n.Obj().Pkg().Path(), ModPath) && strings.HasSuffix(n.Obj().Name(), "Raw") {
+				if _, isStruct := n.Underlying().(*types.Struct); isStruct {
+					c.TypeTag = "t:" + shortPkg(n.Obj().Pkg()) + "." + n.Obj().Name()
+				}
+			}
+		}
+	}
 	act.cells[v] = c
 	return c
 }
